@@ -351,6 +351,19 @@ example : (Msg.helloResponse [83, 80, 65] [97, 124, 98]).inDomain = true ∧ (Ms
 example : (60 : UInt8) ∉ [73, 79, 83, 49] ∧ occurs (DESCN_CLOSE ++ DATAS_OPEN) [10, 0, 60, 47, 68, 65, 84, 65, 83, 62] = false ∧
     occurs (DESCN_CLOSE ++ DATAS_OPEN) ([1] ++ DESCN_CLOSE ++ DATAS_OPEN ++ [2]) = true := by decide
 example : (Msg.versionRequest 7).orphan = false ∧ (Msg.statusSegment 1 0 [60]).orphan = false ∧ Handler.watercare ∈ standardHandlers := by decide
+example : (Msg.setValue 200 6 9 9 15 2 702).isHello = false ∧ (Msg.setValue 200 6 9 9 15 2 702).isWcSet = false ∧
+    (Msg.statusSegment 3 0 [60, 47, 10, 0]).inRange = true ∧ (Msg.statusSegment 3 0 [60, 47, 10, 0]).inDomain = true := by decide
+example : ([73, 110, 88, 77] : Bytes) ∈ platformNames ∧ ([77, 114, 83, 116] : Bytes) ∈ platformNames ∧ 14 ≤ platformNames.length := by decide
+-- the guards: each is `true` exactly while the defect is in the source (both alternatives are stated so that the
+-- example survives the fix)
+example : (helloNeedsCleanName = true ∧ helloSplitMax = none) ∨ (helloNeedsCleanName = false ∧ helloSplitMax = some 1) := by decide
+example : (regexNeedsCleanPayload = true ∧ regexGreedy = (true, true, true)) ∨
+    (regexNeedsCleanPayload = false ∧ regexGreedy = (false, false, true)) := by decide
+example : ((Msg.wcSet 1 2).orphan = true ∧ Msg.wcGiveSchedule.orphan = true) ∨
+    (claims_Watercare.contains SETWC_VERB = true ∧ claims_Watercare.contains WCREQ_VERB = true) := by decide
+example : helloNeedsCleanName = true → helloSep ∉ ([77, 121, 32, 83, 112, 97] : Bytes) := by decide
+example : regexNeedsCleanPayload = true → occurs (DESCN_CLOSE ++ DATAS_OPEN) [83, 84, 65, 84, 86, 3, 0, 2, 60, 10] = false := by decide
+example : (Msg.helloResponse [83, 80, 65, 48, 49] [77, 121, 32, 83, 112, 97]).inDomain = true := by decide
 example : ∀ td ∈ [((1 : Int), (-13 : Int)), (6, 32767), (0, -32768)], td.1 ∈ reminderTypeValues ∧ -32768 ≤ td.2 ∧ td.2 < 32768 := by
   decide
 
